@@ -1848,6 +1848,20 @@ class Engine:
                 return PyList(list(recv.d.values()))
             if name == "copy":
                 return PyDict(recv.d)
+            if name in ("pop", "setdefault") and args and not is_z3(args[0]):          # mutating methods (the dict object itself changes)
+                if name == "pop":
+                    if args[0] in recv.d:
+                        return recv.d.pop(args[0])
+                    if len(args) > 1:
+                        return args[1]
+                    raise PyRaise(Exc("KeyError", (args[0],)))
+                return recv.d.setdefault(args[0], args[1] if len(args) > 1 else None)
+            if name == "update" and len(args) == 1 and isinstance(args[0], PyDict) and not kwargs:
+                recv.d.update(args[0].d)
+                return None
+            if name == "clear" and not args:
+                recv.d.clear()
+                return None
         if isinstance(recv, str):
             if name == "format":
                 if kwargs:
